@@ -22,7 +22,7 @@ Stated, not proved (see the `_stmt` definitions at the end): the listing ORDER t
 bucket = the stored objects sorted by (value, id)) and `Rebuild` being the identity on reachable states — both are
 checked on every run by the spec oracle on the implementation's output and by correspondence.
 -/
-import Kap.Proofs.C15Keys
+import Kap.Proofs.C15Listing
 namespace Kap.Props.C15
 open Kap.C15
 
@@ -179,18 +179,74 @@ theorem listOld_nolimit_ignores_pattern_offset :
       [⟨"a".toList, "g".toList, [], "1".toList⟩, ⟨"b".toList, "g".toList, [], "2".toList⟩] = true ∧
     answers (list cfg2 kv "id".toList "b".toList 1 (-1) false) [] = true := by decide
 
-/-! ### Stated, not proved (checked on every run by the spec oracle on the implementation and by correspondence) -/
+/-! ### Listings: exactly the stored objects, each once, in index order; pages are slices -/
 
-/-- Full-strength listing theorem: after every well-formed history (values of non-unique indexes free of bytes
-≤ '/'), `List(index, "", 0, -1)` is THE listing of the stored objects by (value, id). Missing: the lemma that the
-`Seek`/`Next`-while-`HasPrefix` scan of a sorted bucket is the filter by prefix, that `kvPut`/`kvDel` keep the
-bucket sorted, and the order isomorphism between `value ++ "/" ++ id` and the pair (value, id). -/
-def index_listing_stmt : Prop :=
-  ∀ (c : Cfg), c.wf = true → c.uniqueOnIdOnly = true → ∀ (ops : List Op),
-    (∀ op ∈ ops, op.isRebuild = false ∧ ∀ o, op.obj? = some o →
-        (c.wfObj o = true ∧ ∀ i ∈ c.indexes, Index.wfObj i o = true)) →
+/-- The objects a history may store for the ORDER theorems: well-formed, and the values of non-unique indexes have
+no byte ≤ '/' (outside this, finding `index-order-separator`). -/
+def OrderWF (c : Cfg) (o : Obj) : Prop := c.wfObj o = true ∧ ∀ i ∈ c.indexes, Index.wfObj i o = true
+
+/-- **The bucket stays sorted** under every API call (any configuration, arguments, fault). -/
+theorem bucket_stays_sorted (c : Cfg) (ops : List Op) : Sorted (run c ops) := run_sorted c ops
+
+/-- **On a sorted bucket the `Seek`/`Next`-while-`HasPrefix` scan of `Bolt.list` is the filter by prefix.** -/
+theorem prefix_scan_exact (kv : KV) (hs : Sorted kv) (p : Str) :
+    kvList kv p = kv.filter (fun e => p.isPrefixOf e.1) := kvList_eq_filter p kv hs
+
+/-- **`value ++ "/" ++ id` orders like the pair (value, id)** when the values have no byte ≤ '/'. -/
+theorem composite_key_order (va vb a b : Str) (ha : SepSafe va = true) (hb : SepSafe vb = true) :
+    (va ++ '/' :: a < vb ++ '/' :: b) ↔ (va < vb ∨ (va = vb ∧ a < b)) := composite_lt_iff va vb a b ha hb
+
+/-- **Every index lists exactly the stored objects, each once, in index order** — after every history of create /
+put / replace / delete / reopen (faults anywhere): the unbounded `List(index, "", 0, -1)` succeeds and its answer is
+strictly ascending by (index value, id) and has exactly the objects of the abstract map as members. -/
+theorem index_listing (c : Cfg) (hc : c.wf = true) (hid : c.uniqueOnIdOnly = true) (ops : List Op)
+    (hops : ∀ op ∈ ops, op.isRebuild = false ∧ ∀ o, op.obj? = some o → OrderWF c o) :
     ∃ m, absRun c ops [] [] = some m ∧
-      ∀ i ∈ c.indexes, ∃ l, list c (run c ops) i.name [] 0 (-1) false = .ok l ∧ IsListing i.sel m l
+      ∀ i ∈ c.indexes, ∃ l, list c (run c ops) i.name [] 0 (-1) false = .ok l ∧ IsListing i.sel m l := by
+  have hk : KeysOK c (OrderWF c) := (keysOK_of_wf c hc).mono (fun o ho => ho.1)
+  obtain ⟨m, hr, hi⟩ := history_refines hk hid ops [] [] (inv_empty c _) hops
+  refine ⟨m, hr, ?_⟩
+  intro i hi'
+  obtain ⟨l, hres, hlist⟩ := listing_of_inv hc (fun o ho => ho.1) (fun o ho => ho.2) hi (run_sorted c ops) i hi'
+  refine ⟨l, ?_, hlist⟩
+  have := list_page_of_resolves hres [] 0 (-1) false
+  have e : specPage (if false = true then l.reverse else l) (matchFn []) ((0 : Nat) : Int) (-1) = l := by
+    simp [specPage, matchFn]
+  rw [e] at this
+  exact this
+
+/-- **Pagination with offset/limit and glob patterns returns the corresponding slice of that list** — after every
+such history, for every index, pattern, offset, limit (negative = no limit) and direction: `List`/`ReverseList`
+answers exactly `specPage` of THE listing `l` (filter by the pattern on the id ▸ drop offset ▸ take limit). -/
+theorem list_is_page_of_listing (c : Cfg) (hc : c.wf = true) (hid : c.uniqueOnIdOnly = true) (ops : List Op)
+    (hops : ∀ op ∈ ops, op.isRebuild = false ∧ ∀ o, op.obj? = some o → OrderWF c o) :
+    ∃ m, absRun c ops [] [] = some m ∧
+      ∀ i ∈ c.indexes, ∃ l, IsListing i.sel m l ∧
+        ∀ (pat : Str) (off : Nat) (lim : Int) (rev : Bool),
+          list c (run c ops) i.name pat (off : Int) lim rev
+            = .ok (specPage (if rev then l.reverse else l) (matchFn pat) (off : Int) lim) := by
+  have hk : KeysOK c (OrderWF c) := (keysOK_of_wf c hc).mono (fun o ho => ho.1)
+  obtain ⟨m, hr, hi⟩ := history_refines hk hid ops [] [] (inv_empty c _) hops
+  refine ⟨m, hr, ?_⟩
+  intro i hi'
+  obtain ⟨l, hres, hlist⟩ := listing_of_inv hc (fun o ho => ho.1) (fun o ho => ho.2) hi (run_sorted c ops) i hi'
+  exact ⟨l, hlist, fun pat off lim rev => list_page_of_resolves hres pat off lim rev⟩
+
+/-- Non-vacuity: ids that are prefixes of each other, two groups, a replace that moves an object; the listing of
+the group index is by (group, id). -/
+example :
+    let c : Cfg := { pfx := "p".toList, indexes := [⟨"id".toList, true, .id⟩, ⟨"grp".toList, false, .grp⟩] }
+    let ops : List Op := [.create ⟨"ab".toList, "g".toList, [], "1".toList⟩ .none,
+      .create ⟨"a".toList, "h".toList, [], "2".toList⟩ .none,
+      .create ⟨"b".toList, "g".toList, [], "3".toList⟩ .none,
+      .replace ⟨"a".toList, "g".toList, [], "4".toList⟩ .none]
+    (ops.all (fun op => match op.obj? with
+        | some o => c.wfObj o && c.indexes.all (fun i => Index.wfObj i o) | none => true)) = true ∧
+    answers (list c (run c ops) "grp".toList [] 0 (-1) false)
+      [⟨"a".toList, "g".toList, [], "4".toList⟩, ⟨"ab".toList, "g".toList, [], "1".toList⟩,
+       ⟨"b".toList, "g".toList, [], "3".toList⟩] = true := by decide
+
+/-! ### Stated, not proved (checked on every run by the spec oracle on the implementation and by correspondence) -/
 
 /-- `Rebuild` is the identity on every reachable state (the indexes are a function of the data area). -/
 def rebuild_identity_stmt : Prop :=
